@@ -671,31 +671,36 @@ func TestVerifC16(t *testing.T) {
 	defer os.RemoveAll(e.work)
 
 	alphabet := c16alphabet()
-	depth := vlib.Pick(r, 2, 3)
-	bases := vlib.Pick(r, []string{"plain"}, []string{"plain", "suffrage"})
-	orders := vlib.Pick(r, []string{"fwd"}, []string{"fwd", "rev"})
+
+	type combo struct {
+		base, order string
+		depth       int
+	}
+	combos := vlib.Pick(r,
+		[]combo{{"plain", "fwd", 2}},
+		[]combo{{"plain", "fwd", 3}, {"plain", "rev", 2}, {"suffrage", "fwd", 2}, {"suffrage", "rev", 2}},
+	)
 	r.Set("tamper_alphabet", len(alphabet))
-	r.Set("max_tampers_per_variant", depth)
-	r.Set("bases", bases)
-	r.Set("item_orders", orders)
+	r.Set("combos_base_order_maxtampers", fmt.Sprint(combos))
 
-	subsets := c16subsets(len(alphabet), depth, func(cur []int) bool {
-		seen := map[string]bool{}
-		for _, i := range cur {
-			if g := alphabet[i].excl; g != "" {
-				if seen[g] {
-					return false
+	subsetsOf := func(depth int) [][]int {
+		return c16subsets(len(alphabet), depth, func(cur []int) bool {
+			seen := map[string]bool{}
+			for _, i := range cur {
+				if g := alphabet[i].excl; g != "" {
+					if seen[g] {
+						return false
+					}
+					seen[g] = true
 				}
-				seen[g] = true
 			}
-		}
 
-		return true
-	})
-	r.Set("variants_per_base_and_order", len(subsets))
+			return true
+		})
+	}
 
 	// sanity (every shard): the untampered block is stored and accepted, otherwise nothing below means anything
-	for _, bn := range bases {
+	for _, bn := range []string{"plain", "suffrage"} {
 		res := e.run(bn, "fwd", nil)
 		if !res.stored || res.valerr != nil || res.srcerr != nil || len(res.broken) > 0 {
 			t.Fatalf("c16: untampered block (base %s) not stored/valid: importer=%v validator=%v source=%v broken=%v",
@@ -704,8 +709,10 @@ func TestVerifC16(t *testing.T) {
 	}
 
 	idx := 0
-	for _, bn := range bases {
-		for _, order := range orders {
+	for _, cb := range combos {
+		bn, order := cb.base, cb.order
+		subsets := subsetsOf(cb.depth)
+		{
 			for _, ss := range subsets {
 				idx++
 				if !r.Mine(idx) {
